@@ -414,7 +414,7 @@ func c11Finish(c *engine.Ctx, cov map[string]interface{}) string {
 func init() {
 	register(&engine.Check{
 		ID: "C11", Level: "exploration",
-		Rule: "documents = 8 prologs (XML declaration, DOCTYPE with system id containing '>', internal subsets with quoted '>' and ']>', comments) × root element × every sequence of ≤2 (3) children from a pool of 34 constructs (text, comments with '-' and '->', CDATA with ]] and ]> look-alikes, processing instructions, empty-element tags with every attribute shape: both quote styles, the other quote, '>', '/>', '?>', tab/newline, prefixed names), also nested one level deeper with whitespace in end tags; every whitespace plan ({none, space, newline, mixed} at the 4 in-tag positions) × 14 attribute shapes × 3 second attributes × 2 closers. Expected (type, Text, AttrVal) lists by construction, and element names/attribute names/values vs encoding/xml RawToken. All byte strings ≤4 (5) atoms over the XML alphabet and edit balls around the XML seeds for the structural clauses (attributes only inside tags; NUL reported as *parse.Error, no token past it)",
+		Rule:        "documents = 8 prologs (XML declaration, DOCTYPE with system id containing '>', internal subsets with quoted '>' and ']>', comments) × root element × every sequence of ≤2 (3) children from a pool of 34 constructs (text, comments with '-' and '->', CDATA with ]] and ]> look-alikes, processing instructions, empty-element tags with every attribute shape: both quote styles, the other quote, '>', '/>', '?>', tab/newline, prefixed names), also nested one level deeper with whitespace in end tags; every whitespace plan ({none, space, newline, mixed} at the 4 in-tag positions) × 14 attribute shapes × 3 second attributes × 2 closers. Expected (type, Text, AttrVal) lists by construction, and element names/attribute names/values vs encoding/xml RawToken. All byte strings ≤4 (5) atoms over the XML alphabet and edit balls around the XML seeds for the structural clauses (attributes only inside tags; NUL reported as *parse.Error, no token past it)",
 		Assumptions: []string{"attribute values are compared after the tab/newline→space normalisation that XML 1.0 §3.3.3 prescribes and the lexer documents", "documents that encoding/xml rejects are only compared with the expected list"},
 		Setup:       c11Setup, Work: c11Work, Finish: c11Finish,
 	})
